@@ -353,3 +353,53 @@ def search_calls_aa(rng):
 def kdtree_leven_calls(rng):
     for rec in _aa_calls(rng, True):
         yield rec
+
+
+_WPOOL = ["", "A", "AB", "BA", "ABC", "AAB", "B", "CAB", "ABCD"]
+
+
+@scope("pdist_calls")
+def pdist_calls(rng):
+    metric = "(lambda a, b, w=0: specref.wlev(a, b, 1, 2, 1) + w * len(a))"
+    for n in (0, 1, 2, 3, 4, 5):
+        for _ in range(6):
+            xs = [rng.choice(_WPOOL) for _ in range(n)]
+            yield {"strings": seq([S(x) for x in xs], rng.choice(["list", "tuple"])), "metric": py(metric),
+                   "dtype": py("np.float64"), "kwargs": {"t": "dict", "items": {"w": I(rng.randint(0, 3))}}}
+
+
+@scope("cdist_calls")
+def cdist_calls(rng):
+    metric = "(lambda a, b, w=0: specref.wlev(a, b, 1, 2, 1) + w * len(a))"
+    for _ in range(60):
+        xs = [rng.choice(_WPOOL) for _ in range(rng.randint(0, 4))]
+        ys = [rng.choice(_WPOOL) for _ in range(rng.randint(0, 4))]
+        yield {"stringsA": seq([S(x) for x in xs], "list"), "stringsB": seq([S(x) for x in ys], "list"), "metric": py(metric),
+               "dtype": py("np.float64"), "kwargs": {"t": "dict", "items": {"w": I(rng.randint(0, 3))}}}
+
+
+@scope("wlev_init")
+def wlev_init(rng):
+    for w in [(1, 1, 1), (1, 2, 1), (2, 1, 1), (3, 1, 2), (1, 1, 3), (2, 5, 3)]:
+        yield {"self": py("object.__new__(prs.metric.WeightedLevenshtein)"), "insertion_weight": I(w[0]), "deletion_weight": I(w[1]),
+               "substitution_weight": I(w[2])}
+
+
+def _wl(rng):
+    w = rng.choice([(1, 1, 1), (1, 2, 1), (2, 1, 1), (3, 1, 2)])
+    return py(f"prs.metric.WeightedLevenshtein({w[0]}, {w[1]}, {w[2]})")
+
+
+@scope("wlev_cdist")
+def wlev_cdist(rng):
+    for _ in range(60):
+        xs = [rng.choice(_WPOOL) for _ in range(rng.randint(1, 4))]
+        ys = [rng.choice(_WPOOL) for _ in range(rng.randint(1, 4))]
+        yield {"self": _wl(rng), "anchors": seq([S(x) for x in xs], "list"), "comparisons": seq([S(x) for x in ys], "list")}
+
+
+@scope("wlev_pdist")
+def wlev_pdist(rng):
+    for _ in range(60):
+        xs = [rng.choice(_WPOOL) for _ in range(rng.randint(2, 5))]
+        yield {"self": _wl(rng), "instances": seq([S(x) for x in xs], "list")}
